@@ -84,6 +84,145 @@ fn compressor(run: &mut Run, tier: Tier) {
     run.set("compressor_reuse_history_length", max_len as u64);
 }
 
+/// The compressor as an object with operations: every sequence, up to a depth, of {set_source(i), refill the source
+/// in place through source_mut(), set_drain(new), compress, set_compression_level, take_drain, take_source} on one
+/// FrameCompressor, against a model (source = bytes not yet read, drain = expected concatenation of frames).
+/// After every compress() the bytes appended to the drain must be exactly one well-formed frame (strict walker:
+/// includes the trailing checksum) that regenerates what the source still held, also for libzstd; the source must
+/// be exhausted afterwards; take_* must hand back what the model holds.
+pub fn compressor_protocol(run: &mut Run, tier: Tier, prop: &str) {
+    #[derive(Clone, Copy, Debug, PartialEq)]
+    enum P {
+        SetSource(usize),
+        Refill(usize),
+        SetDrain,
+        Compress,
+        Level(bool),
+        TakeDrain,
+        TakeSource,
+    }
+    let mut ins: Vec<Vec<u8>> = vec![vec![], b"x".to_vec(), b"hello world hello world hello world".to_vec(), (0..5000u32).map(|i| (i % 7) as u8).collect()];
+    if tier == Tier::Thorough {
+        ins.push(vec![7u8; 131073]);
+    }
+    let mut alphabet: Vec<P> = vec![P::Compress, P::SetDrain, P::TakeDrain, P::TakeSource, P::Level(false), P::Level(true)];
+    for i in 0..ins.len() {
+        alphabet.push(P::SetSource(i));
+        alphabet.push(P::Refill(i));
+    }
+    let depth = tier.pick(6usize, 7);
+    // all sequences of exactly `depth` operations that end in compress (shorter ones are their prefixes: every
+    // compress along the way is checked), skipping operations the documentation rules out (compress without a
+    // source or a drain, refill without a source)
+    fn enumerate(alphabet: &[P], depth: usize, cur: &mut Vec<P>, has_src: bool, has_drain: bool, out: &mut Vec<Vec<P>>) {
+        if cur.len() == depth {
+            if cur.last() == Some(&P::Compress) {
+                out.push(cur.clone());
+            }
+            return;
+        }
+        for &op in alphabet {
+            let (mut s, mut d) = (has_src, has_drain);
+            match op {
+                P::Compress if !(has_src && has_drain) => continue,
+                P::Refill(_) if !has_src => continue,
+                P::SetSource(_) => s = true,
+                P::SetDrain => d = true,
+                P::TakeDrain => d = false,
+                P::TakeSource => s = false,
+                _ => {}
+            }
+            // two level changes in a row, or taking what is not there, add nothing
+            if matches!((cur.last(), op), (Some(P::Level(_)), P::Level(_))) || (op == P::TakeDrain && !has_drain) || (op == P::TakeSource && !has_src) {
+                continue;
+            }
+            cur.push(op);
+            enumerate(alphabet, depth, cur, s, d, out);
+            cur.pop();
+        }
+    }
+    let mut seqs = vec![];
+    enumerate(&alphabet, depth, &mut vec![], false, false, &mut seqs);
+    let accs = crate::meter::par_fold(seqs.len(), crate::meter::threads(), crate::c12::Acc::default, |a, si| {
+        let seq = &seqs[si];
+        a.evals += 1;
+        let rp = json!({"case": "compressor_protocol", "operations": seq.iter().map(|o| format!("{o:?}")).collect::<Vec<_>>()});
+        let r = guarded(|| -> Option<(String, String)> {
+            let mut c: FrameCompressor<&[u8], Vec<u8>, _> = FrameCompressor::new(CompressionLevel::Fastest);
+            let mut src: Option<&[u8]> = None; // model: bytes the source still holds
+            let mut drain: Option<Vec<u8>> = None; // model: what the drain must hold
+            for (k, op) in seq.iter().enumerate() {
+                match *op {
+                    P::SetSource(i) => {
+                        let old = c.set_source(ins[i].as_slice());
+                        if old.map(|o| o.len()) != src.map(|s| s.len()) {
+                            return Some(("set_source:returned".into(), format!("operation {k}: set_source returned a source holding {:?} bytes, expected {:?}", old.map(|o| o.len()), src.map(|s| s.len()))));
+                        }
+                        src = Some(ins[i].as_slice());
+                    }
+                    P::Refill(i) => {
+                        *c.source_mut().unwrap() = ins[i].as_slice();
+                        src = Some(ins[i].as_slice());
+                    }
+                    P::SetDrain => {
+                        let old = c.set_drain(Vec::new());
+                        if old != drain {
+                            return Some(("set_drain:returned".into(), format!("operation {k}: set_drain handed back a drain of {:?} bytes, the frames written so far have {:?}", old.map(|o| o.len()), drain.as_ref().map(|d| d.len()))));
+                        }
+                        drain = Some(vec![]);
+                    }
+                    P::Level(fast) => {
+                        c.set_compression_level(if fast { CompressionLevel::Fastest } else { CompressionLevel::Uncompressed });
+                    }
+                    P::TakeDrain => {
+                        if c.take_drain() != drain.take() {
+                            return Some(("take_drain".into(), format!("operation {k}: take_drain does not hand back the frames written so far")));
+                        }
+                    }
+                    P::TakeSource => {
+                        let got = c.take_source();
+                        if got != src.take() {
+                            return Some(("take_source".into(), format!("operation {k}: take_source handed back {:?} bytes", got.map(|g| g.len()))));
+                        }
+                    }
+                    P::Compress => {
+                        let before = c.drain().unwrap().len();
+                        c.compress();
+                        let all = c.drain().unwrap();
+                        let want = src.unwrap();
+                        if all.len() < before || all[..before] != drain.as_ref().unwrap()[..] {
+                            return Some(("compress:drain_prefix".into(), format!("operation {k}: compress changed bytes already in the drain")));
+                        }
+                        let frame = &all[before..];
+                        match zmodel::walker::walk(frame, None) {
+                            Ok(w) if w.consumed == frame.len() && w.plaintext == want && w.header.checksum_flag => {}
+                            Ok(w) => return Some(("compress:frame".into(), format!("operation {k}: compress appended {} bytes that read as a frame of {} content bytes (checksum flag {}, {} bytes used); the source held {} bytes", frame.len(), w.plaintext.len(), w.header.checksum_flag, w.consumed, want.len()))),
+                            Err(e) => return Some((if e.contains("checksum") { "compress:[C08]checksum".into() } else { format!("compress:invalid:{}", crate::ev::truncate(&e, 30)) }, format!("operation {k}: compress appended {} bytes that are not one well-formed frame of the {} bytes the source held: {e}", frame.len(), want.len()))),
+                        }
+                        match crate::refz::decode(frame) {
+                            Ok(p) if p == want => {}
+                            other => return Some(("compress:libzstd".into(), format!("operation {k}: libzstd does not restore the {} source bytes from the appended frame: {:?}", want.len(), other.map(|v| v.len())))),
+                        }
+                        if c.source().map(|s| s.len()) != Some(0) {
+                            return Some(("compress:source_left".into(), format!("operation {k}: after compress the source still holds {:?} bytes", c.source().map(|s| s.len()))));
+                        }
+                        drain = Some(all.clone());
+                        src = Some(&want[want.len()..]);
+                    }
+                }
+            }
+            None
+        });
+        match r {
+            Ok(None) => a.nontrivial += 1,
+            Ok(Some((id, what))) => a.bad(format!("compressor_protocol:{id}"), format!("FrameCompressor driven by {:?}: {what}", seq), rp),
+            Err(p) => a.bad(format!("compressor_protocol:panic:{}", p.rsplit(" @ ").next().unwrap_or("")), format!("FrameCompressor driven by {:?} panicked: {p}", seq), rp),
+        }
+    });
+    crate::c12::merge(run, prop, &format!("compressor_protocol_all_operation_sequences_depth_{depth}"), accs, true);
+    run.set("compressor_protocol_depth", depth as u64);
+}
+
 pub fn main(tier: Tier, replay: Option<Value>) -> i32 {
     if let Some(r) = replay {
         return c06::do_replay(tier, &r["replay"], "C08");
@@ -108,6 +247,7 @@ pub fn main(tier: Tier, replay: Option<Value>) -> i32 {
         println!("C08: drain matrix cells not exercised: {:?}", empty);
     }
     compressor(&mut run, tier);
+    compressor_protocol(&mut run, tier, "C08");
     run.set("states", tot.states);
     run.set("transitions", tot.transitions);
     run.set("terminal_states_checked", tot.terminal);
